@@ -171,6 +171,18 @@ def by_lemma(fn, *args):
     return bool(fn(*args))
 
 
+def as_list(x):
+    return list(x)
+
+
+def is_ndarray(x):
+    return type(x).__name__ == 'ndarray'
+
+
+def is_list(x):
+    return isinstance(x, list)
+
+
 def same_obj(x, y):
     """x and y are the same container object, where y may be a snapshot copy carrying its origin's identity."""
     return getattr(x, 'orig_id__', id(x)) == getattr(y, 'orig_id__', id(y))
@@ -214,5 +226,5 @@ class Old:
 
 
 NATIVE_HELPERS = dict(implies=implies, iff=iff, index_of=index_of, order_of=order_of, key_at=key_at,
-                      is_fresh=is_fresh, same_elems=same_elems, same_dict=same_dict, typeof=typeof, same=same, same_obj=same_obj, now=now, was=was, origin=origin, by_lemma=by_lemma,
+                      is_fresh=is_fresh, same_elems=same_elems, same_dict=same_dict, typeof=typeof, same=same, same_obj=same_obj, now=now, was=was, origin=origin, by_lemma=by_lemma, as_list=as_list, is_ndarray=is_ndarray, is_list=is_list,
                       is_none=is_none)
